@@ -615,4 +615,26 @@ theorem gjkBody2_next_cases {K : Type} [Num K] (fs : V2 K → CSO2 K) (maxDist :
                       subst e1 e2 e3 e4
                       exact ⟨rfl, by simpa using c1, s1, ha, hp, c6⟩
 
+
+/-! ## non-vacuity -/
+/-- non-vacuity of `LocalSpec` / `WorldSpec` on a concrete input over `ℚ`: the one-point sets `{(0,0,0)}` and `{(0,0,0)}`, shape 2
+placed 3 to the right: `WithinMargin((0,0,0), (0,0,0))` satisfies the local statement for `max_dist = 4` (gap² = 9 ≤ 16), and
+`Disjoint` satisfies it for `max_dist = 2`. -/
+example : LocalSpec (K := ℚ) (fun x => x) (fun x => x = ⟨0, 0, 0⟩) (fun y => y = ⟨0, 0, 0⟩) ⟨0, 0, 0, 1, ⟨3, 0, 0⟩⟩ 4 (.within ⟨0, 0, 0⟩ ⟨0, 0, 0⟩) ∧
+    LocalSpec (K := ℚ) (fun x => x) (fun x => x = ⟨0, 0, 0⟩) (fun y => y = ⟨0, 0, 0⟩) ⟨0, 0, 0, 1, ⟨3, 0, 0⟩⟩ 2 .disjoint := by
+  refine ⟨⟨rfl, rfl, ?_, ?_⟩, ?_⟩
+  · rintro x y rfl rfl; exact le_refl _
+  · simp only [gapL, Iso3.act, Iso3.rot, Iso3.rotQ, Iso3.qv, V3.cross, V3.smul, V3.add, V3.sub, V3.normSq, V3.dot, fieldNum_two]
+    norm_num
+  · rintro x y rfl rfl
+    simp only [gapL, Iso3.act, Iso3.rot, Iso3.rotQ, Iso3.qv, V3.cross, V3.smul, V3.add, V3.sub, V3.normSq, V3.dot, fieldNum_two]
+    norm_num
+
+/-- the support contract of `closestPointsSmSm3_disjoint_sound` is satisfiable: one-point shapes and the constant support map -/
+example (P : Iso3 ℚ) (a0 b0 : V3 ℚ) :
+    letI := fieldNum ℚ (fun x => x)
+    SupportsCSO3 (Obstacle3 (fun x => x) (fun x => x = a0) (fun y => y = b0) P) (fun _ => ⟨a0.sub (P.act b0), a0, P.act b0⟩) := by
+  rintro dir c ⟨x, y, rfl, rfl, rfl⟩
+  exact le_refl _
+
 end C01
